@@ -285,6 +285,11 @@ RULESETS = [
     ("vector-run", [], [("(m #(a ...))", "(v a ...)")]),
     ("list-only", [], [("(m (a b))", "(list-of-two a b)"), ("(m a)", "(something-else a)")]),
     ("template-vector", [], [("(m a b ...)", "#(a (b b) ...)")]),
+    # sub-templates under an ellipsis that also hold things which are not pattern variables: (), constants, free identifiers, vectors
+    ("empty-list-in-run", [], [("(m a ...)", "(r (f () a) ...)")]),
+    ("constants-in-run", [], [("(m a ...)", "(r (q 0 \"s\" #t free a) ...)")]),
+    ("vector-in-run", [], [("(m a ...)", "(r #(a ()) ...)")]),
+    ("nested-list-in-run", [], [("(m (a b) ...)", "(r ((a) (() b)) ...)")]),
 ]
 USES = ["(#(1))", "(#())", "((1))", "()", "(1)", "(1 2)", "(1 2 3)", "((1 2))", "((1 2) (3 4))", "((1 2) 3)", "(lit 5)", "(x 5)", "(2 7)", "(#(1 2))", "(#(1 2 3))",
         "((1 (2 3)) 4)", "((1 2 3) 9)", "(1 . 2)", "((1 2 . 3))", '("lit" 5)', "((1 2) (3 4 . 5))"]
